@@ -532,8 +532,22 @@ def job_native(prog, chk, tier, seed):
             mh = re.search(r'\[line (\d+), column (\d+)\]', c)
             if mh and int(mh.group(1)) != rep['line']:
                 problems.append(f"contextualize header says line {mh.group(1)}, report says {rep['line']}")
+            # the same text handed over as a FILE: same position, and the path is reported
+            fo = runner.call({'cmd': 'compile', 'backend': 'rasn', 'sources': [t], 'config': {}, 'project': False, 'files': True})
+            frep = (fo.get('error') or {}).get('report') if not fo.get('ok') else None
+            if frep is None:
+                problems.append(f"given as a file the same text is {'accepted' if fo.get('ok') else 'rejected without a position'}")
+            else:
+                for k in ('offset', 'line', 'column', 'context_start_line', 'context_start_offset'):
+                    if frep[k] != rep[k]:
+                        problems.append(f"file {k} {frep[k]} differs from the literal's {rep[k]} for the same text")
+                        break
+                if not frep.get('src_file') or 'src0.asn' not in frep['src_file']:
+                    problems.append(f"file source path not reported ({frep.get('src_file')!r})")
+                elif 'src0.asn' not in ((fo.get('error') or {}).get('display') or ''):
+                    problems.append('file Display does not name the source path')
             if problems:
-                chk.violation('C17 native ' + problems[0].split(' ')[0], f"{problems[0]}: {t!r}", {'kind': 'text', 'text': t})
+                chk.violation('C17 native ' + ' '.join(problems[0].split(' ')[:2]), f"{problems[0]}: {t!r}", {'kind': 'text', 'text': t})
             else:
                 chk.res.discharged += 1
                 chk.res.diff_ok += 1
